@@ -691,6 +691,82 @@ theorem mknodBlk_layer (bk : Backend) :
 
 /-! ## ties to the source (regenerated on every run by `extract/tar.go`) -/
 
+/-! ## the layer's bodies are what the interface reads (round 4)
+
+`Stat` (the header's size) and `Open` (the body `writeTar` copies, and what `ReadFile` returns) decide
+independently whether a package-provided file still has the package's content (`effectiveSize` / `teLive`:
+`memFileInfo.Size` and `openFile` — ties `tie_tarTarfsSize`, `tie_tarfs_te_tests`).  They agree: the header size
+of every regular entry is the number of bytes the interface reads, and the body is those bytes.  The judge
+`readbackCheck` is what the driver runs (`tar.readback`) on the layer the real code wrote against `Stat` /
+`ReadFile` of the real file system. -/
+
+/-- `Stat`'s size is the length of what `Open` + read delivers -/
+theorem size_is_read_length (b : Backend) (n : Inode) (hok : nodeOK n = true) (hte : b = .tarfs ∨ n.te = none) :
+    effectiveSize (Cfg.impl b) n = (fileData b n).length := by
+  have hsz : ∀ te, n.te = some te → te.size = te.content.length := by
+    intro te h
+    simp only [nodeOK, h, Bool.and_eq_true, beq_iff_eq] at hok
+    exact hok.1.2
+  cases hn : n.te with
+  | none => simp [effectiveSize, fileData, teLive, hn]
+  | some te =>
+    have hb : b = .tarfs := by
+      rcases hte with h | h
+      · exact h
+      · rw [hn] at h; cases h
+    subst hb
+    have := hsz te hn
+    by_cases hd : n.data.length = 0
+    · by_cases hz : te.size = 0
+      · have hnil : n.data = [] := List.eq_nil_of_length_eq_zero hd
+        simp [effectiveSize, fileData, teLive, hn, Cfg.impl, hz, hnil]
+      · have hc : te.content ≠ [] := by
+          intro h; rw [h] at this; exact hz (by simpa using this)
+        simp [effectiveSize, fileData, teLive, hn, Cfg.impl, hd, this, hc]
+    · simp [effectiveSize, fileData, teLive, hn, Cfg.impl, hd]
+
+/-- **layer_entry_is_readback**: a regular entry of the layer carries the size `Stat` reports and the bytes
+`ReadFile` returns for its path, and the two agree -/
+theorem layer_entry_is_readback (b : Backend) (fs : FS) (users groups : List (Nat × Text)) (p : List Name) (i : Ino)
+    (hok : nodeOK (fs.node i) = true) (hte : b = .tarfs ∨ (fs.node i).te = none)
+    (hk : (header b fs users groups p i).kind = .reg) :
+    readbackEntry [readbackOf b fs (p, i)] (header b fs users groups p i) = none := by
+  have hlen := size_is_read_length b (fs.node i) hok hte
+  simp only [header, hdrKind] at hk
+  by_cases hl : hdrLink (fs.node i) ≠ []
+  · simp [hl] at hk
+  · simp only [hl, if_false] at hk
+    cases hh : hlOf b (fs.node i) p with
+    | some l => simp [hh] at hk
+    | none =>
+      simp only [hh, Option.isSome_none, Bool.false_eq_true, if_false] at hk
+      have hreg : isRegularMode (fs.node i).mode = true := by
+        unfold fihKind at hk
+        by_cases hr : isRegularMode (fs.node i).mode = true
+        · exact hr
+        · simp only [hr, Bool.false_eq_true, if_false] at hk
+          repeat (first | split at hk | cases hk)
+      have hsize : hdrSize b none (fs.node i) = effectiveSize (Cfg.impl b) (fs.node i) := by
+        simp [hdrSize, hk]
+      have hcont : hdrContent b (effectiveSize (Cfg.impl b) (fs.node i)) (fs.node i) = fileData b (fs.node i) := by
+        unfold hdrContent
+        by_cases hz : effectiveSize (Cfg.impl b) (fs.node i) > 0
+        · simp [hreg, hz]
+        · have : (fileData b (fs.node i)).length = 0 := by omega
+          simp [hz, (List.eq_nil_of_length_eq_zero this)]
+      rw [hlen] at hsize hcont
+      simp [readbackEntry, readbackOf, header, hh, hsize, hcont, hlen]
+
+/-- the judge rejects a layer whose header size follows a `Stat` that saw the truncation while `Open` still
+serves the package's bytes (a 0-byte entry for a file that reads "hello") -/
+example : readbackCheck [{ path := ["f".toList], kind := .reg, mode := 0o644, uid := 0, gid := 0, size := 0, content := [] }]
+    [{ path := ["f".toList], statSize := 0, content := "hello".toList, readLen := 5 }] = some (.content ["f".toList]) := by decide
+
+/-- non-vacuity: a package-provided file whose truncation was ignored (F17b) is well-formed and regular -/
+example : let n : Inode := { mode := 0o644, te := some { content := "hello".toList, size := 5, checksum := [], pkgName := [],
+                                                          pkgOrigin := [], pkgReplaces := [] } }
+    nodeOK n = true ∧ effectiveSize (Cfg.impl .tarfs) n = 5 ∧ fileData .tarfs n = "hello".toList := by decide
+
 theorem tie_tarXattrPrefix : Generated.tarXattrPrefix = "SCHILY.xattr." := by rfl
 theorem tie_tarWriteTar : Generated.tarWriteTar = (["ctx, span := otel.Tracer(\"go-apk\").Start(ctx, \"writeTar\")",
   "defer span.End()",
@@ -754,5 +830,9 @@ theorem tie_tarTarfsLink : Generated.tarTarfsLink = (["parent := filepath.Dir(ne
   "return nil"] : List String) := by rfl
 theorem tie_tarMemfsSys : Generated.tarMemfsSys = (["return &tar.Header{ Mode: int64(m.mode), Uid: m.uid, Gid: m.gid, }"] : List String) := by rfl
 theorem tie_tarMemfsSize : Generated.tarMemfsSize = (["return int64(len(m.data))"] : List String) := by rfl
+/-- every test of a node's tar entry in tarfs: `openFile` (package bytes on empty data of a non-empty package file)
+and `memFileInfo.Size` (package size on empty data) — `teLive` / `effectiveSize` -/
+theorem tie_tarfs_te_tests : Generated.teTestsTarfs = (["anode.te != nil && len(anode.data) == 0 && anode.te.header.Size != 0",
+  "m.node.te != nil && len(m.data) == 0"] : List String) := by rfl
 
 end Apko.C06
